@@ -79,6 +79,10 @@ def expr_text(e, facts):
     kind = G.TYPES[f['type']][1]
     if kind in ('int', 'Decimal', 'float'):
         return '%s + 1' % f['path']
+    um = G.union_member(f['type'], f['lex']) if kind == 'union' and not f.get('nil') else None
+    if um is not None and um[1] in ('integer', 'int', 'short', 'decimal', 'double'):
+        # arithmetic and value comparison on a node whose type is a union and whose value is numeric
+        return ('%s + 1' if e.get('fact', 0) % 2 == 0 else '%s lt 1000000') % f['path']
     if kind == 'bool':
         return 'not(data(%s))' % f['path']
     if f['type'] == 'date':
@@ -329,6 +333,38 @@ def run_case(case, world):
                     extra.append('user-derived-integer-restriction-decoded-as-decimal')
                 violate('TYPED_VALUE', 'instance-of-declared-type-false:%s' % f['type'],
                         '%s is %r' % (text, outcome[1]), feats + extra)
+        # (ii-b) arithmetic and comparison use the typed value
+        if sk is not None and e['kind'] == 'arith' and cfg['facts'] and (built[0] or sk != 'A') and ref == outcome \
+                and (text.endswith(' + 1') or text.endswith(' lt 1000000')):
+            f = cfg['facts'][e['fact'] % len(cfg['facts'])]
+            stats['typed_value_checks'] += 1
+            try:
+                decoded = xsd_type_of(sk, f['type'], f.get('xsi')).decode(f['lex'])
+            except Exception:
+                decoded = None
+            numeric = isinstance(decoded, (int, float, decimal.Decimal)) and not isinstance(decoded, bool)
+            if f.get('nil') or not numeric:
+                pass        # an empty or non numeric operand: the outcome is not judged here
+            elif outcome[0] == 'error':
+                extra = ['type:' + f['type']]
+                um = G.union_member(f['type'], f['lex']) if sk == 'A' else None
+                if um is not None and um[0] > 0:
+                    extra.append('union-value-of-a-later-member')
+                violate('TYPED_VALUE', 'typed-arithmetic-raises:%s' % f['type'],
+                        '%s (%r, type %s, decoded %r) raises %r' % (text, f['lex'], f['type'], decoded, outcome[:3]), feats + extra)
+            elif text.endswith(' + 1'):
+                got = items[0] if len(items) == 1 else None
+                want = decoded + 1
+                ok = got is not None and not isinstance(got, (str, bool)) and same_value(got, want) and \
+                    isinstance(got, float) == isinstance(want, float)
+                if not ok:
+                    violate('TYPED_VALUE', 'typed-arithmetic-differs:%s' % f['type'],
+                            '%s (%r, type %s) gives %r (%s), the typed value gives %r' % (
+                                text, f['lex'], f['type'], [canon(x) for x in items], [type(x).__name__ for x in items], want),
+                            feats + ['type:' + f['type']])
+            elif items != [True]:
+                violate('TYPED_VALUE', 'typed-comparison-differs:%s' % f['type'],
+                        '%s (%r, type %s) gives %r' % (text, f['lex'], f['type'], [canon(x) for x in items]), feats + ['type:' + f['type']])
         # (iii) schema never changes node selection of structural paths
         if e['kind'] == 'path' and sk is not None and (built[0] or sk != 'A'):
             stats['node_list_checks'] += 1
